@@ -54,6 +54,22 @@ pub fn resolve(tree: &TreeSpec, rel: &str, depth: usize) -> Res {
                     let joined = if rest.is_empty() { inner.to_string() } else { format!("{}/{}", inner, rest.join("/")) };
                     return resolve(tree, &joined, depth + 1);
                 }
+                if !target.starts_with('/') {
+                    // relative to the directory the link lives in; ".." may climb inside the tree
+                    let mut parts: Vec<&str> = if cur.is_empty() { vec![] } else { cur.split('/').collect() };
+                    for seg in target.split('/').chain(rest.iter().cloned()) {
+                        match seg {
+                            "" | "." => {}
+                            ".." => {
+                                if parts.pop().is_none() {
+                                    return Res::Missing; // climbs out of the tree: not modelled
+                                }
+                            }
+                            x => parts.push(x),
+                        }
+                    }
+                    return resolve(tree, &parts.join("/"), depth + 1);
+                }
                 return Res::Missing; // outside / dangling: the lookup model does not follow it
             }
         }
